@@ -1097,8 +1097,8 @@ def pred_df(case, out):
         rest = [f for f in rest if f not in ("vrnt_genpos", "spline")]
     if case["via"] == "csv":
         fl = [f for f in rest if o[f] is not None and b[f] is not None and o[f]["t"] == "f64" and b[f]["t"] == "f64"
-              and o[f]["sh"] == b[f]["sh"] and _ulps(_fl(o[f]), _fl(b[f]), 2)]
-        if fl: bad.append("[csv-float-parse] %s differ in the last bit after to_csv/from_csv (pandas' default float parser is not round-trip exact)" % ",".join(fl))
+              and o[f]["sh"] == b[f]["sh"] and _ulps(_fl(o[f]), _fl(b[f]), 8)]
+        if fl: bad.append("[csv-float-parse] %s differ in the last bits after to_csv/from_csv (pandas' default float parser is not round-trip exact)" % ",".join(fl))
         rest = [f for f in rest if f not in fl]
     if rest: bad.append("fields not reproduced: %s" % ",".join(rest))
     return bad
